@@ -166,6 +166,25 @@ fn rule_days() -> Vec<RuleDay> {
     v
 }
 
+/// every rule day there is: 12 months x 5 weeks x 7 weekdays, every Jn, every zero-based n
+fn rule_days_all() -> Vec<RuleDay> {
+    let mut v = vec![];
+    for m in 1..=12u8 {
+        for w in 1..=5u8 {
+            for d in 0..=6u8 {
+                v.push(RuleDay::M { m, w, d });
+            }
+        }
+    }
+    for n in 1..=365u16 {
+        v.push(RuleDay::J1(n));
+    }
+    for n in 0..=365u16 {
+        v.push(RuleDay::J0(n));
+    }
+    v
+}
+
 /// the statement's proviso: rule transitions more than one day inside the calendar year (and apart from each other)
 fn inside_year(r: &RefRule, years: &[i64]) -> bool {
     let d = r.dst.as_ref().unwrap();
@@ -294,7 +313,7 @@ fn main() {
         property: "C05",
         classes: CLASSES,
         required: &["offset_ok", "wall_single", "wall_ambiguous", "wall_none", "exempt_second", "equal_offset_transition", "rule_zone", "table_zone", "footer_after_table", "system_zone", "southern_rule", "negative_dst", "public_route"],
-        rule: "zones: (a) ALL bounded zone models — 0..=3 transitions, types from a 13-entry palette (6 offsets x dst flag + an abbreviation-only variant), spacings {1 s, 3599 s, 1 h, 2 h, 1 d, 30 d}, footer {none, fixed, alternate rule consistent with the last type}, written as TZif v1/v2/v3 fat/slim with/without indicators by an independent writer; (b) a POSIX rule grid: std x dst-std (incl. negative DST) x all pairs of rule days (Mm.w.d grid, Jn, n) x rule times, kept when both transitions lie more than one day inside the year; (c) every TZif file of the system zoneinfo database without leap records, decoded by an independent reader. instants: every second within +-2 s of every transition and of its wall-clock images, midpoints, 1 Jan / 1 Jul of probe years, both range ends; both directions through the guarded accessor, and through the real Local (TZ=:file / TZ=rule on a fresh thread) for the system zones and a stride of the others. oracle: offset_at, and the wall-clock answer = brute-force inversion of offset_at (0 -> None, 1 -> Single, 2 -> Ambiguous earliest first); the boundary second T + offset_before is exempt",
+        rule: "zones: (a) ALL bounded zone models — 0..=3 transitions, types from a 13-entry palette (6 offsets x dst flag + an abbreviation-only variant), spacings {1 s, 3599 s, 1 h, 2 h, 1 d, 30 d}, footer {none, fixed, alternate rule consistent with the last type}, written as TZif v1/v2/v3 fat/slim with/without indicators by an independent writer; (b) a POSIX rule grid: std x dst-std (incl. negative DST) x all pairs of rule days (Mm.w.d grid, Jn, n) x rule times, kept when both transitions lie more than one day inside the year; (b') every rule day there is (12 months x 5 weeks x 7 weekdays, J1..J365, 0..365) once as start and once as end, the other end half a year away, over a full 28-year weekday/leap cycle; (c) every TZif file of the system zoneinfo database without leap records, decoded by an independent reader. instants: every second within +-2 s of every transition and of its wall-clock images, midpoints, 1 Jan / 1 Jul of probe years, both range ends; both directions through the guarded accessor, and through the real Local (TZ=:file / TZ=rule on a fresh thread) for the system zones and a stride of the others. oracle: offset_at, and the wall-clock answer = brute-force inversion of offset_at (0 -> None, 1 -> Single, 2 -> Ambiguous earliest first); the boundary second T + offset_before is exempt",
         assumptions: &["leap-second (right/) files are excluded by the statement", "wall clocks with more than two readings (transitions closer together than the offset change) are counted, not judged", "rule evaluation near the calendar year ends is outside the statement's proviso"],
     };
     let tier = args.tier;
@@ -314,8 +333,51 @@ fn main() {
     // a full 28-year weekday/leap cycle for the footers of the system zones, plus far years
     let sys_years: Vec<i64> = [1600i64, 1904, 1948, 1968, 1969, 1970, 2100, 2400, 9999].into_iter().chain(2023..=2051).collect();
     let n_rule = nd * nd;
+    // second rule family: EVERY rule day once as the start and once as the end of the DST period, the other end about
+    // half a year away, over a full 28-year weekday / leap cycle plus century years on both sides of the epoch
+    let days_all = rule_days_all();
+    let single_years: Vec<i64> = [1900i64, 1968, 1972, 2000, 2100].into_iter().chain(2023..=2050).collect();
+    let single_proviso: Vec<i64> = single_years.iter().cloned().chain([1969, 1970, 1971]).collect();
+    const SINGLE_CH: u64 = 8;
+    let n_single = (2 * days_all.len() as u64 + SINGLE_CH - 1) / SINGLE_CH;
     let only = replay_unit(&args);
-    let mut acc = explore_units(n_syn + n_rule + nfiles, CLASSES.len(), only, |u, acc| {
+    let mut acc = explore_units(n_syn + n_rule + nfiles + n_single, CLASSES.len(), only, |u, acc| {
+        if u >= n_syn + n_rule + nfiles {
+            let k0 = (u - n_syn - n_rule - nfiles) * SINGLE_CH;
+            for k in k0..(k0 + SINGLE_CH).min(2 * days_all.len() as u64) {
+                let day = days_all[(k / 2) as usize];
+                let as_start = k % 2 == 0;
+                // day of the year of this rule day in 2023, to put the other end far away
+                let probe = RefRule { std: RefType { off: 0, dst: false, abbr: "AAA".into() }, dst: Some(RefDst { ty: RefType { off: 3600, dst: true, abbr: "BBB".into() }, start: day, start_time: 7200, end: day, end_time: 7200 }) };
+                let doy = (probe.year_transitions(2023).unwrap().0 - days_from_civil(2023, 1, 1) * 86400) / 86400;
+                let other = if doy < 183 { RuleDay::J0((doy + 170) as u16) } else { RuleDay::J0((doy - 170) as u16) };
+                for &so in &[3723i32, -18000] {
+                    let (sd, ed) = if as_start { (day, other) } else { (other, day) };
+                    let r = RefRule { std: RefType { off: so, dst: false, abbr: "AAA".into() }, dst: Some(RefDst { ty: RefType { off: so + 3600, dst: true, abbr: "BBB".into() }, start: sd, start_time: 7200, end: ed, end_time: 7200 }) };
+                    if !inside_year(&r, &single_proviso) {
+                        acc.skip("rule transitions not more than one day inside the year (statement's proviso)");
+                        continue;
+                    }
+                    let text = r.to_tz_string();
+                    if parse_tz_string(&text, false).as_ref() != Some(&r) {
+                        machinery(&format!("RefPosix writer/reader disagree on {}", text));
+                    }
+                    let vz = match guard(|| VerifZone::from_tz(Some(&text))) {
+                        Ok(Ok(v)) => v,
+                        other => {
+                            acc.violation("from_tz:rejects-wellformed", format!("TZ={}", text), "Ok".into(), format!("{:?}", other.map(|r| r.map(|_| ()))));
+                            continue;
+                        }
+                    };
+                    let z = RefZone { trans: vec![], types: vec![r.std.clone()], rule: Some(r.clone()) };
+                    acc.states += 1;
+                    judge_zone(acc, &|| format!("TZ={}", text), &vz, &z, &single_years);
+                    acc.hit(RULEZ);
+                }
+            }
+            acc.traces += 1;
+            return;
+        }
         if u < n_syn {
             for code in u * SYN_CH..((u + 1) * SYN_CH).min(space) {
                 let Some((z, version, v1, ind)) = synthetic_zones(code, tier) else { continue };
